@@ -223,6 +223,8 @@ def gen_scenario(rng):
                 st.append(['skip', g.num(n, 0.05)])
             else:
                 st.append(['limit', max(1, g.num(n, 0.0)) if rng.random() < 0.9 else g.num(n, 0.5)])
+            if st and st[-1][0] != 'sort' and rng.random() < 0.15:
+                st[-1][1] = float(st[-1][1])      # a double that holds a whole number
         if st:
             cases.append(('agg', st))
     return {'docs': docs, 'oids': g.oids, 'profile': profile, 'cases': cases}
@@ -746,6 +748,8 @@ def run_scenarios(ctx, scs, judge, stats):
                     cur = list(sel)
                     rejected = False
                     for st in case[1]:
+                        if st[0] != 'sort' and isinstance(st[1], float) and st[1].is_integer():
+                            st = [st[0], int(st[1])]    # a whole-number double is that integer
                         if st[0] == 'sort':
                             cur = o_sorted(cur, st[1])
                         elif st[1] < 0 or (st[0] == 'limit' and st[1] == 0):
